@@ -492,8 +492,10 @@ func init() {
 			"only clean relative slash paths, clean patterns and prefixes (path.Clean(x)==x, prefixes also with one trailing slash) are generated: behaviour on unclean paths is not stated by the property and not judged",
 			"hash objects are equal iff they have the same algorithms with the same digests",
 		},
-		Workers:    func(string) int { return 16 },
-		Floors:     func(string) map[string]int64 { return map[string]int64{"enum_accepted": 10000, "enum_rejected": 10000, "random_accepted": 500, "random_rejected": 500, "grammar_accepted": 50, "grammar_rejected": 1000} },
+		Workers: func(string) int { return 16 },
+		Floors: func(string) map[string]int64 {
+			return map[string]int64{"enum_accepted": 10000, "enum_rejected": 10000, "random_accepted": 500, "random_rejected": 500, "grammar_accepted": 50, "grammar_rejected": 1000}
+		},
 		Run:        runC03,
 		TimeoutS:   func(t string) int { return 1800 },
 		Exhaustive: func(string) bool { return true },
